@@ -9,7 +9,7 @@ RULE = ("a template set enumerated completely: nestings of als / anders als / an
         "run 0, 1, 2, 3 times, and (directed) 70 000 and 100 000 times with code after the loop (no residue); random "
         "programs beyond. Compiler and VM stages compared with Compiler.v/VM.v, results (value, output trace of which "
         "branch ran, error kind) with Sem.v. non-trivial = distinct program")
-ASSUMPTIONS = ["if_exactly_one_branch and while_no_residue as machine-level theorems are part of fragment F2 of compile_correct (in progress); until then they are decided per program against Sem.v"]
+ASSUMPTIONS = ["control flow is proved at source level by compile_correct_F2 / F3 / F2h (every if-chain, loop, stop, volgende, antwoord goes where Sem.v says); programs combining functions with heap values are decided per program against Sem.v"]
 NOTES = ["proved for every compiler state: break_innermost, continue_innermost, function_resets_loops, function_body_break, while_patches_breaks, return_outside_function; machine: return_restores"]
 
 LEAVES = ["stop", "volgende", "antwoord t", "t = t + 1", "print(\"L\")"]
